@@ -26,7 +26,7 @@ BUDGET = {
 }
 REQUIRED_PROBES = ["unary", "sstream", "cstream", "bidi", "void_output", "foreign_request", "form_none", "form_dict",
                    "form_msg", "retried_identical_payload", "concurrent_callers", "crossing_replies", "stream_cut",
-                   "second_client_same_process", "keyword_rpc", "async_stream", "presence_only_request", "cancelled_mid_call", "threaded_callers", "threads_crossing_replies"]
+                   "second_client_same_process", "keyword_rpc", "async_stream", "presence_only_request", "cancelled_mid_call", "threaded_callers", "threads_crossing_replies", "stream_start_fault_retried_sync", "stream_start_fault_surfaced_async"]
 ASSUMPTIONS = ["client-streaming and bidi calls are not driven through retried attempts (a consumed request iterator "
                "cannot be replayed; outside the property)"]
 
@@ -124,6 +124,14 @@ def gen_op(spec, rng, codec, fs, s, m, k, oid, client):
     if k == "unary" and pol and rng.random() < 0.4:
         for _ in range(rng.randint(1, 3)):
             script.append({"code": rng.choice(pol["codes"]), "lat": lat()})
+    if k == "sstream" and pol and rng.random() < 0.25:
+        # the stream fails BEFORE its first reply with a retryable status.  api-core semantics (trusted base): the SYNC
+        # flavour prefetches the first reply inside the retried call, so the call is retried like a unary one; the
+        # asyncio flavour hands the error to the first read and does not retry.  Which of the two applies is decided
+        # by what the emitted transport asks api-core for, so it is judged.
+        for _ in range(rng.randint(1, 2) if client == "sync" else 1):
+            script.append({"code": rng.choice(pol["codes"]), "lat": lat()})
+        op["stream_start_fault"] = True
     if k == "unary" and rng.random() < 0.12:
         non = [c for c in engine.ALL_CODES if not pol or c not in pol["codes"]]
         script.append({"code": rng.choice(non), "lat": lat()})
@@ -213,6 +221,8 @@ def judge_op(spec, codec, scenario, op, evs, probes):
         _bump(probes, "presence_only_request")
     if k != "unary" and scenario["client"] == "async":
         _bump(probes, "async_stream")
+    if op.get("stream_start_fault"):
+        _bump(probes, "stream_start_fault_" + ("retried_sync" if scenario["client"] == "sync" else "surfaced_async"))
 
     def V(rule, msg):
         return [{"rule": rule, "op": op["id"], "method": path, "msg": msg}]
@@ -232,7 +242,8 @@ def judge_op(spec, codec, scenario, op, evs, probes):
     for i, o in enumerate(script):
         exp_n += 1
         elapsed += o.get("lat", 0.0)
-        if o.get("code") and pol and o["code"] in pol["codes"] and i + 1 < len(script):
+        if o.get("code") and pol and o["code"] in pol["codes"] and i + 1 < len(script) \
+                and not (k == "sstream" and scenario["client"] == "async"):
             if retry_T is not None and elapsed > retry_T:
                 final = {"code": None, "retry_deadline": True}     # (waits are 0 here: jitter script is all zeros)
                 break
@@ -269,7 +280,8 @@ def judge_op(spec, codec, scenario, op, evs, probes):
         if a["n"] > 1:
             _bump(probes, "retried_identical_payload")
     # ---- outcome
-    if outcome["k"] == "cancelled" and (k in ("unary", "cstream") or not attempts or attempts[-1]["n"] not in servers):
+    if outcome["k"] == "cancelled" and (k in ("unary", "cstream") or not attempts or attempts[-1]["n"] not in servers
+                                        or final is None or final.get("code") or final.get("retry_deadline")):
         return []
     if final.get("retry_deadline"):
         if outcome["k"] != "raise" or outcome.get("cls") != "RetryError":
